@@ -203,6 +203,20 @@ func goid() uint64 {
 	return v
 }
 
+var resets []func()
+
+// RegisterReset is called from init functions the instrumenter generates (rule 8): f puts package-level containers of an
+// instrumented package back to their initial values.
+func RegisterReset(f func()) { resets = append(resets, f) }
+
+// ResetGlobals runs at the start of every simulated run, so that no run sees what an earlier run of the same process left
+// in a package-level free list, cache or scratch buffer.
+func ResetGlobals() {
+	for _, f := range resets {
+		f()
+	}
+}
+
 // New creates a scheduler; wait must be synctest.Wait of the enclosing bubble.
 func New(ch *Chooser, wait func()) *Sched {
 	s := &Sched{byGoid: map[uint64]*Task{}, Ch: ch, arrived: make(chan struct{}, 1<<16), wait: wait,
